@@ -22,6 +22,7 @@ import (
 	"strings"
 	"time"
 
+	"github.com/AdguardTeam/AdGuardDNS/internal/dnsmsg"
 	"github.com/AdguardTeam/AdGuardDNS/internal/dnsserver"
 	"github.com/AdguardTeam/AdGuardDNS/internal/dnsserver/netext"
 	"github.com/AdguardTeam/AdGuardDNS/verifh/hlib"
@@ -52,6 +53,23 @@ var (
 type sink struct {
 	writes [][]byte
 	closed bool
+	// failNext: that many of the next writes fail (nothing is sent) with
+	// errConnWrite; failed counts them.
+	failNext int
+	failed   int
+}
+
+var errConnWrite = &net.OpError{Op: "write", Net: "c08", Err: os.ErrDeadlineExceeded}
+
+func (s *sink) fail() bool {
+	if s.failNext > 0 {
+		s.failNext--
+		s.failed++
+
+		return true
+	}
+
+	return false
 }
 
 type fakePacketConn struct {
@@ -60,6 +78,9 @@ type fakePacketConn struct {
 }
 
 func (c fakePacketConn) WriteTo(b []byte, _ net.Addr) (int, error) {
+	if c.s.fail() {
+		return 0, errConnWrite
+	}
 	c.s.writes = append(c.s.writes, bytes.Clone(b))
 
 	return len(b), nil
@@ -73,6 +94,9 @@ type fakeConn struct {
 }
 
 func (c fakeConn) Write(b []byte) (int, error) {
+	if c.s.fail() {
+		return 0, errConnWrite
+	}
 	c.s.writes = append(c.s.writes, bytes.Clone(b))
 
 	return len(b), nil
@@ -150,6 +174,26 @@ type servers struct {
 	doh string
 	// jsonBody is the JSON document the last "json" exchange returned.
 	jsonBody []byte
+	// alias: the handler answers with the request's own OPT record *object* in
+	// place of its response's OPT record (same values: the generator made the
+	// response's OPT a copy of what the server parses) — a handler that
+	// reflects `req.Extra`.  Everything the write path later does to the
+	// request shows in such a response.
+	alias *dns.OPT
+	// cloner is the production Disposer (internal/cmd gives one dnsmsg.Cloner to
+	// every listener and every middleware): all servers of the harness dispose
+	// of what they have written into its pools.  With useCloner the handler
+	// answers, like the production cache and filtering code, with a message
+	// taken from those pools (Clone of the generated response); lastClone is
+	// that message.
+	cloner    *dnsmsg.Cloner
+	useCloner bool
+	lastClone *dns.Msg
+	// failWrites: the connection of the next exchange fails that many writes.
+	failWrites int
+	// sharedSection counts the responses that left with the request's own
+	// additional section.
+	sharedSection int
 	// override, when set, maps a transport to a server built elsewhere (the
 	// wiring campaign: by the production builder from a configuration file).
 	override map[string]any
@@ -168,6 +212,24 @@ func (sv *servers) handler() dnsserver.Handler {
 		}
 		resp := sv.cur
 		resp.Id = req.Id
+		if sv.useCloner && sv.alias == nil {
+			resp = sv.cloner.Clone(resp)
+			sv.lastClone = resp
+		}
+		if ro := req.IsEdns0(); sv.alias != nil && ro != nil {
+			for i, rr := range resp.Extra {
+				if rr == dns.RR(sv.alias) {
+					resp.Extra[i] = ro
+				}
+			}
+			// ... or the request's whole additional section (`resp.Extra =
+			// req.Extra`: the same backing array), when the two hold the same
+			// single record; for every other query, so that both kinds occur.
+			if len(resp.Extra) == 1 && len(req.Extra) == 1 && resp.Extra[0] == req.Extra[0] && req.Id%2 == 0 {
+				resp.Extra = req.Extra
+				sv.sharedSection++
+			}
+		}
 
 		sv.writeErr = rw.WriteMsg(ctx, req, resp)
 
@@ -185,15 +247,15 @@ func (sv *servers) get(t string, cfgMax uint16, idleMs int) any {
 	if s, ok := sv.cache[key]; ok {
 		return s
 	}
-	base := dnsserver.ConfigBase{Name: "c08", Addr: "127.0.0.1:0", Handler: sv.handler()}
+	base := dnsserver.ConfigBase{Name: "c08", Addr: "127.0.0.1:0", Handler: sv.handler(), Disposer: sv.cloner}
 	var s any
 	switch t {
 	case "udp", "tcp":
-		s = dnsserver.NewServerDNS(dnsserver.ConfigDNS{ConfigBase: base, MaxUDPRespSize: cfgMax,
-			TCPIdleTimeout: time.Duration(idleMs) * time.Millisecond})
+		s = dnsserver.NewServerDNS(otherFields(dnsserver.ConfigDNS{ConfigBase: base, MaxUDPRespSize: cfgMax,
+			TCPIdleTimeout: time.Duration(idleMs) * time.Millisecond}, len(sv.cache)))
 	case "dot":
-		s = dnsserver.NewServerTLS(dnsserver.ConfigTLS{ConfigDNS: dnsserver.ConfigDNS{ConfigBase: base,
-			MaxUDPRespSize: cfgMax, TCPIdleTimeout: time.Duration(idleMs) * time.Millisecond}})
+		s = dnsserver.NewServerTLS(dnsserver.ConfigTLS{ConfigDNS: otherFields(dnsserver.ConfigDNS{ConfigBase: base,
+			MaxUDPRespSize: cfgMax, TCPIdleTimeout: time.Duration(idleMs) * time.Millisecond}, len(sv.cache))})
 	case "doh":
 		s = dnsserver.NewServerHTTPS(dnsserver.ConfigHTTPS{ConfigBase: base})
 	case "doq":
@@ -204,6 +266,23 @@ func (sv *servers) get(t string, cfgMax uint16, idleMs int) any {
 	sv.cache[key] = s
 
 	return s
+}
+
+// otherFields sets the configuration fields that have nothing to do with the
+// response size limit (sizes of the *read* buffers, timeouts, pipelining) to
+// values that differ from server to server and from the configured maximum: no
+// other number of the configuration may find its way into the limit.  k is any
+// number that varies between servers.
+func otherFields(c dnsserver.ConfigDNS, k int) dnsserver.ConfigDNS {
+	c.UDPSize = []int{0, 600, 1500, 4096, 9000, 65535}[k%6]
+	c.TCPSize = []int{0, 700, 2048, 16384, 65535}[k%5]
+	c.ReadTimeout = []time.Duration{0, 3 * time.Second, 1200 * time.Millisecond}[k%3]
+	c.WriteTimeout = []time.Duration{0, 2 * time.Second, 1500 * time.Millisecond}[k%3]
+	if k%4 == 1 {
+		c.MaxPipelineEnabled, c.MaxPipelineCount = true, uint(1+k%7)
+	}
+
+	return c
 }
 
 // dcCapField reports whether the tree under test has ConfigDNSCrypt.MaxUDPRespSize
@@ -245,7 +324,8 @@ func (sv *servers) drive(t string, cfgMax uint16, idleMs int, reqWire []byte, re
 
 func (sv *servers) driveMode(mode, t string, cfgMax uint16, idleMs int, reqWire []byte, resp *dns.Msg) (d driven) {
 	sv.cur, sv.writeErr, sv.mode, sv.called = resp, nil, mode, false
-	sk := &sink{}
+	sk := &sink{failNext: sv.failWrites}
+	sv.failWrites = 0
 	defer func() { d.closed = sk.closed }()
 	switch t {
 	case "udp":
@@ -562,6 +642,28 @@ type tcase struct {
 	keepQ bool
 	// wired: the servers come from the production builder (wiring campaign).
 	wired bool
+	// cloned: the handler answers with a message from the shared Cloner's pools
+	// (see servers.useCloner).
+	cloned bool
+	// alias: see servers.alias (the record of resp that stands for the
+	// request's).
+	alias *dns.OPT
+}
+
+// aliasOPT returns a copy of the OPT record the server will parse out of req
+// (nil if there is none), for a handler response that reflects the request's
+// record.
+func aliasOPT(req *dns.Msg) *dns.OPT {
+	b, err := req.Pack()
+	if err != nil {
+		return nil
+	}
+	m := &dns.Msg{}
+	if m.Unpack(b) != nil {
+		return nil
+	}
+
+	return m.IsEdns0()
 }
 
 type pending struct {
@@ -769,11 +871,17 @@ func (x *runner) run(c tcase) {
 				r.Violate("panic-in-write-path", fmt.Sprintf("%s: write path panicked: %v", c.t, v), x.replay(c, "", reqOpt, hOpt))
 			}
 		}()
-		x.sv.doh, x.sv.jsonBody = c.doh, nil
+		x.sv.doh, x.sv.jsonBody, x.sv.alias, x.sv.useCloner, x.sv.lastClone = c.doh, nil, c.alias, c.cloned, nil
 		d = x.sv.drive(c.t, rawCfg, c.idleMs, reqWire, resp)
-		x.sv.doh = ""
+		x.sv.doh, x.sv.alias, x.sv.useCloner = "", nil, false
 	}()
 
+	if x.sv.lastClone != nil {
+		// what the write path normalised (and has by now disposed of: its parts
+		// stay untouched until the next Clone) is the pooled message
+		resp, x.sv.lastClone = x.sv.lastClone, nil
+		r.Count("resp.taken-from-cloner-pools")
+	}
 	// State of the message object after the write path.
 	fOpt := viewOpt(resp.IsEdns0())
 	fAns, fNs, fExtra := len(resp.Answer), len(resp.Ns), len(noOPT(resp.Extra))
@@ -1017,6 +1125,7 @@ func (x *runner) draw(c tcase, reqOpt, fOpt optView) int {
 
 func (x *runner) replay(c tcase, line string, reqOpt, hOpt optView) map[string]any {
 	rp := map[string]any{"transport": c.t + dohSuffix(c.doh), "max_udp_resp_size": c.cfgMax, "tcp_idle_ms": c.idleMs, "generator": c.tag,
+		"handler_reflects_request_opt_object": c.alias != nil, "handler_response_from_cloner_pools": c.cloned,
 		"request_opt": reqLine(reqOpt), "handler_opt": hOpt.String(), "model_line": clip(line, 6000)}
 	if b, err := c.req.Pack(); err == nil && len(b) < 2000 {
 		rp["request_hex"] = fmt.Sprintf("%x", b)
@@ -1174,6 +1283,10 @@ func (x *runner) oracle(c tcase, d driven, reqOpt, hOpt optView, nAns, nNs, nExt
 					} else {
 						r.Count("keepalive.timeout-value-checked")
 					}
+
+					// the server writes the first one; a handler's (or reflected
+					// request's) further copies pass through
+					break
 				}
 			}
 		}
@@ -1686,6 +1799,14 @@ func (x *runner) randomCampaign(n int) {
 		if wireForm {
 			x.oddRequest(rng, req)
 		}
+		var alias *dns.OPT
+		if wireForm && rng.IntN(7) == 0 {
+			// the handler reflects the request's OPT record object
+			if o := aliasOPT(req); o != nil {
+				own, alias = o, o
+				x.r.Count("resp.opt-aliases-request-opt")
+			}
+		}
 		resp := genResp(rng, req, own, target, compressed)
 		if lastGenOdd {
 			x.r.Count("resp.odd-record-types-and-names")
@@ -1713,7 +1834,7 @@ func (x *runner) randomCampaign(n int) {
 			x.r.Count("resp.compress-flag-set")
 		}
 		x.r.Count("gen." + tag)
-		x.run(tcase{t: t, cfgMax: cfgMax, idleMs: idle, req: req, resp: resp, tag: fmt.Sprintf("random#%d/%s", i, tag), doh: doh, keepQ: keepQ})
+		x.run(tcase{t: t, cfgMax: cfgMax, idleMs: idle, req: req, resp: resp, tag: fmt.Sprintf("random#%d/%s", i, tag), doh: doh, keepQ: keepQ, alias: alias, cloned: alias == nil && i%3 == 1})
 	}
 	x.flush()
 }
@@ -2024,6 +2145,36 @@ func (x *runner) findings() {
 			x.run(tcase{t: t, cfgMax: 1232, req: req, resp: resp, tag: fmt.Sprintf("finding/tsig/%s/opt=%v", t, withOpt)})
 		}
 	}
+	// (f) a handler that reflects the request's OPT record object: whatever the
+	// write path does to the request afterwards must not show in the response
+	// (DNSCrypt/UDP lowers the request's size for the library; repaired).
+	for _, t := range transports {
+		for _, adv := range []uint16{4096, 1232, 600} {
+			req := &dns.Msg{}
+			req.SetQuestion("example.org.", dns.TypeA)
+			req.SetEdns0(adv, true)
+			if t == "doq" {
+				req.Id = 0
+			}
+			own := aliasOPT(req)
+			resp := genResp(rng, req, own, 120, true)
+			x.run(tcase{t: t, cfgMax: 1232, req: req, resp: resp, alias: own, tag: fmt.Sprintf("finding/reflected-opt-object/%s/%d", t, adv)})
+			// the same with nothing but the OPT record in the additional section:
+			// the handler hands back the request's section itself (even id)
+			for _, id := range []uint16{2, 3} {
+				req = req.Copy()
+				if t != "doq" {
+					req.Id = id
+				}
+				own = aliasOPT(req)
+				resp = &dns.Msg{}
+				resp.SetReply(req)
+				resp.Answer = []dns.RR{&dns.A{Hdr: dns.RR_Header{Name: "example.org.", Rrtype: dns.TypeA, Class: dns.ClassINET, Ttl: 30}, A: net.IPv4(192, 0, 2, 1)}}
+				resp.Extra = []dns.RR{own}
+				x.run(tcase{t: t, cfgMax: 1232, req: req, resp: resp, alias: own, tag: fmt.Sprintf("finding/reflected-extra-section/%s/%d/id%d", t, adv, id)})
+			}
+		}
+	}
 	// (d) synthesised OPT must echo the client's size (repaired; kept as a regression probe).
 	for _, t := range transports {
 		req := &dns.Msg{}
@@ -2036,6 +2187,94 @@ func (x *runner) findings() {
 		x.run(tcase{t: t, cfgMax: 4096, req: req, resp: resp, tag: "finding/synth-opt-size/" + t})
 	}
 	x.flush()
+}
+
+// writeFaults: the connection refuses the first write (a write deadline that
+// fires, the errors the real write paths wrap into WriteError).  The handler
+// returns the writer's error, the server answers SERVFAIL on the same
+// connection; that second message is judged by the property's words alone —
+// size, framing (driveMode), OPT echo, no padding / keep-alive the client did
+// not ask for, TC clear with nothing to drop.  With two failing writes nothing
+// may leave at all.
+func (x *runner) writeFaults() {
+	r := x.r
+	rng := x.o.Rand("write-faults")
+	for i := 0; i < 240; i++ {
+		t := []string{"udp", "tcp", "dot"}[i%3]
+		cfgMax := pick16(rng, cfgSizes)
+		req := genReq(rng, t)
+		var own *dns.OPT
+		if rng.IntN(3) == 0 {
+			own = genOwnOPT(rng)
+		}
+		resp := genResp(rng, req, own, 40+rng.IntN(3000), rng.IntN(2) == 0)
+		reqWire, err := req.Pack()
+		if err != nil {
+			continue
+		}
+		seen := &dns.Msg{}
+		if seen.Unpack(reqWire) != nil {
+			continue
+		}
+		reqOpt := viewOpt(seen.IsEdns0())
+		fails := 1 + i/3%2
+		x.sv.failWrites = fails
+		d := x.sv.driveMode("wrote", t, cfgMax, 30000, reqWire, resp)
+		rp := map[string]any{"transport": t, "max_udp_resp_size": cfgMax, "failing_writes": fails, "request_opt": reqLine(reqOpt),
+			"request_hex": fmt.Sprintf("%x", reqWire), "wire_len": len(d.wire)}
+		if d.badWire != "" {
+			r.Violate("bad-framing", t+" after a failed write: "+d.badWire, rp)
+
+			continue
+		}
+		if fails == 2 {
+			if d.wire != nil {
+				r.Disagree("write-fault-extra-write", fmt.Sprintf("%s: %d bytes left after both writes failed", t, len(d.wire)), rp)
+			} else {
+				r.Count("write-faults.nothing-sent")
+			}
+
+			continue
+		}
+		if d.wire == nil {
+			// allowed by the property (no response), but not what the code does
+			r.Disagree("write-fault-no-servfail", t+": no SERVFAIL after a failed write", rp)
+
+			continue
+		}
+		m := &dns.Msg{}
+		if err = m.Unpack(d.wire); err != nil {
+			r.Violate("unparsable-response", t+" after a failed write: "+err.Error(), rp)
+
+			continue
+		}
+		r.Count("write-faults.servfail-judged." + t)
+		lim := 65535
+		if t == "udp" {
+			adv := 0
+			if reqOpt.Present {
+				adv = int(seen.IsEdns0().UDPSize())
+			}
+			lim = max(512, min(adv, int(cfgMax)))
+		}
+		o := m.IsEdns0()
+		switch {
+		case len(d.wire) > lim:
+			r.Violate(map[bool]string{true: "udp-oversize", false: "stream-oversize"}[t == "udp"], fmt.Sprintf("%s after a failed write: %d bytes, limit %d", t, len(d.wire), lim), rp)
+		case m.Rcode != dns.RcodeServerFailure || m.Truncated || len(m.Answer) != 0:
+			r.Disagree("write-fault-shape", fmt.Sprintf("%s: rcode %d tc=%v answers=%d after a failed write", t, m.Rcode, m.Truncated, len(m.Answer)), rp)
+		case reqOpt.Present && o == nil:
+			r.Violate("opt-missing-synthesised", t+" after a failed write: query carried OPT, response has none", rp)
+		case reqOpt.Present && (o.UDPSize() != seen.IsEdns0().UDPSize() || o.Version() != 0):
+			r.Violate("opt-echo-size-synthesised", fmt.Sprintf("%s after a failed write: OPT says %d/v%d, client sent %d", t, o.UDPSize(), o.Version(), seen.IsEdns0().UDPSize()), rp)
+		case !reqOpt.Present && o != nil:
+			r.Disagree("write-fault-shape", t+": OPT record in the SERVFAIL for a query without one", rp)
+		case o != nil && len(viewOpt(o).lens(dns.EDNS0PADDING)) > 0 && !(t == "dot" && reqOpt.has(dns.EDNS0PADDING)):
+			r.Violate("padding-not-requested", t+" after a failed write: padding added", rp)
+		case o != nil && len(viewOpt(o).lens(dns.EDNS0TCPKEEPALIVE)) > 0 && !(t != "udp" && reqOpt.has(dns.EDNS0TCPKEEPALIVE)):
+			r.Violate("keepalive-not-requested", t+" after a failed write: keep-alive returned", rp)
+		}
+	}
 }
 
 // runServer drives a query that the server answers itself (or not at all):
@@ -2242,6 +2481,123 @@ func (x *runner) dnscryptE2E() {
 	}
 }
 
+// dnscryptHandshake drives the one response path of a DNSCrypt listener that
+// never sees normalize: the plain-text certificate answer the dnscrypt module
+// gives itself (Server.handleHandshake) to an unencrypted TXT query for the
+// provider name.  Judged by the property's words alone: size within
+// max(512, min(advertised, configured)) on UDP, an OPT record back for a query
+// that carried one.  Queries for other names must stay unanswered.
+func (x *runner) dnscryptHandshake(uaddr, taddr string, cfg uint16) {
+	r := x.r
+	type hs struct {
+		name string
+		adv  int // -1: no OPT
+		pad  bool
+	}
+	cases := []hs{{"example.org.", -1, false}, {"example.org.", 4096, false}, {"eXaMpLe.OrG.", 512, false},
+		{"example.org.", 1232, true}, {"example.org.", 0, false}, {"other.example.", 4096, false}}
+	for _, network := range []string{"udp", "tcp"} {
+		for _, c := range cases {
+			q := &dns.Msg{}
+			q.SetQuestion(c.name, dns.TypeTXT)
+			if c.adv >= 0 {
+				q.SetEdns0(uint16(c.adv), false)
+				if c.pad {
+					o := q.IsEdns0()
+					o.Option = append(o.Option, &dns.EDNS0_PADDING{Padding: make([]byte, 16)})
+				}
+			}
+			qw, err := q.Pack()
+			if err != nil {
+				continue
+			}
+			var wire []byte
+			addr := uaddr
+			if network == "tcp" {
+				addr = taddr
+			}
+			conn, err := net.Dial(network, addr)
+			if err != nil {
+				r.Count("dnscrypt-handshake.dial-failed")
+
+				continue
+			}
+			_ = conn.SetDeadline(time.Now().Add(1500 * time.Millisecond))
+			if network == "udp" {
+				_, _ = conn.Write(qw)
+				buf := make([]byte, 70000)
+				if n, rerr := conn.Read(buf); rerr == nil {
+					wire = buf[:n]
+				}
+			} else {
+				b := make([]byte, 2+len(qw))
+				binary.BigEndian.PutUint16(b, uint16(len(qw)))
+				copy(b[2:], qw)
+				_, _ = conn.Write(b)
+				var l [2]byte
+				if _, rerr := io.ReadFull(conn, l[:]); rerr == nil {
+					wire = make([]byte, binary.BigEndian.Uint16(l[:]))
+					if _, rerr = io.ReadFull(conn, wire); rerr != nil {
+						wire = nil
+					}
+				}
+			}
+			_ = conn.Close()
+			rp := map[string]any{"transport": "dnscrypt-" + network + " (plain-text certificate query)", "query_name": c.name,
+				"advertised": c.adv, "padding_option": c.pad, "max_udp_resp_size": cfg, "request_hex": fmt.Sprintf("%x", qw), "wire_len": len(wire)}
+			if !strings.EqualFold(c.name, "example.org.") {
+				if wire != nil {
+					r.Violate("dnscrypt-plain-query-answered", fmt.Sprintf("dnscrypt/%s: an unencrypted query for %s was answered with %d bytes", network, c.name, len(wire)), rp)
+				} else {
+					r.Count("dnscrypt-handshake.other-name-ignored")
+				}
+
+				continue
+			}
+			if wire == nil {
+				r.Count("dnscrypt-handshake.no-answer")
+
+				continue
+			}
+			m := &dns.Msg{}
+			if err = m.Unpack(wire); err != nil {
+				r.Violate("unparsable-response", "dnscrypt certificate answer: "+err.Error(), rp)
+
+				continue
+			}
+			r.Count("dnscrypt-handshake.answered." + network)
+			lim := 65535
+			if network == "udp" {
+				lim = max(512, min(max(c.adv, 0), int(effCfg("dcu", cfg))))
+			}
+			if len(wire) > lim {
+				r.Violate("udp-oversize", fmt.Sprintf("dnscrypt/%s certificate answer: %d bytes, limit %d", network, len(wire), lim), rp)
+			}
+			if want := dcCertLen(len(c.name) + 1); len(wire) != want {
+				r.Disagree("dnscrypt-cert-length", fmt.Sprintf("certificate answer of %d bytes, the model's dcCertRespLen says %d", len(wire), want), rp)
+			}
+			if m.Truncated || len(m.Answer) != 1 {
+				r.Disagree("dnscrypt-cert-shape", fmt.Sprintf("tc=%v answers=%d", m.Truncated, len(m.Answer)), rp)
+			}
+			o := m.IsEdns0()
+			switch {
+			case c.adv < 0 && o != nil && len(viewOpt(o).lens(dns.EDNS0PADDING)) > 0:
+				r.Violate("padding-not-requested", "dnscrypt certificate answer padded", rp)
+			case c.adv >= 0 && o == nil:
+				r.Violate("dnscrypt-cert-response-without-opt", fmt.Sprintf("dnscrypt/%s: the plain-text certificate query carried an OPT record (size %d), the answer has none", network, c.adv), rp)
+			case c.adv >= 0 && (int(o.UDPSize()) != c.adv || o.Version() != 0):
+				r.Violate("opt-echo-size-own", fmt.Sprintf("dnscrypt certificate answer: OPT says %d, client sent %d", o.UDPSize(), c.adv), rp)
+			}
+		}
+	}
+}
+
+// dcCertLen is the length of the module's certificate answer for a query name
+// of n wire bytes, written out by hand: header, question, one TXT record with
+// the owner spelled out again (no compression) and the 124-byte certificate as
+// a single character string.
+func dcCertLen(n int) int { return 12 + n + 4 + n + 10 + 1 + 124 }
+
 func (x *runner) dnscryptE2EWith(cfg uint16) {
 	r := x.r
 	rng := x.o.Rand(fmt.Sprintf("dnscrypt-e2e-%d", cfg))
@@ -2287,6 +2643,9 @@ func (x *runner) dnscryptE2EWith(cfg uint16) {
 		r.Disagree("dnscrypt-e2e-setup", fmt.Sprintf("certificate fetch failed: %v", err), nil)
 
 		return
+	}
+	if full {
+		x.dnscryptHandshake(uaddr, taddr, cfg)
 	}
 	// exchange sends one encrypted query and returns the raw encrypted answer;
 	// on TCP also the length prefix and whether bytes followed the frame.
@@ -2593,7 +2952,7 @@ func main() {
 		"distinct = distinct canonical case texts (random padding length excluded)"
 	m := hlib.StartModel(o.Model, "C08")
 	defer m.Close()
-	x := &runner{o: o, r: r, m: m, sv: &servers{cache: map[string]any{}}, legacy: "0"}
+	x := &runner{o: o, r: r, m: m, sv: &servers{cache: map[string]any{}, cloner: dnsmsg.NewCloner(dnsmsg.EmptyClonerStat{})}, legacy: "0"}
 	if os.Getenv("C08_LEGACY") == "1" {
 		x.legacy = "1"
 	}
@@ -2605,12 +2964,16 @@ func main() {
 	x.serverMade()
 	x.boundaryCampaign()
 	x.dnscryptE2E()
+	x.writeFaults()
 	n := 6000
 	if o.Thorough() {
 		n = 60000
 		x.exhaustiveGrid()
 	}
 	x.randomCampaign(n)
+	for i := 0; i < x.sv.sharedSection; i++ {
+		r.Count("resp.extra-section-is-the-requests")
+	}
 
 	r.Finish()
 }
